@@ -157,3 +157,74 @@ def ndarray_index(text, names, log, where):
         n_r += 1
     if n_w or n_r: log.add('R17', where, '%d indexed stores, %d indexed loads on %s' % (n_w, n_r, '/'.join(names)), 'vx_set / vx_at of the ndarray stand-in')
     return text
+
+def _split_args(s):
+    """top-level comma split of a macro argument list"""
+    out, depth, i, start, n = [], 0, 0, 0, len(s)
+    while i < n:
+        k = L.skip_trivia_and_literals(s, i)
+        if k != i: i = k; continue
+        c = s[i]
+        if c in '([{': depth += 1
+        elif c in ')]}': depth -= 1
+        elif c == ',' and depth == 0:
+            out.append(s[start:i].strip()); start = i + 1
+        i += 1
+    if s[start:].strip(): out.append(s[start:].strip())
+    return out
+
+def _fmt_parts(lit):
+    """lit = source text of a normal string literal (with quotes).  Returns [('lit', source-text) | ('hole', spec)] or None."""
+    if not (lit.startswith('"') and lit.endswith('"')): return None
+    body, parts, cur, i = lit[1:-1], [], '', 0
+    while i < len(body):
+        c = body[i]
+        if c == '\\':
+            if body.startswith('\\u{', i):
+                j = body.find('}', i); cur += body[i:j + 1]; i = j + 1; continue
+            cur += body[i:i + 2]; i += 2; continue
+        if c == '{':
+            if body.startswith('{{', i): cur += '{'; i += 2; continue
+            j = body.find('}', i)
+            if j < 0: return None
+            if cur: parts.append(('lit', cur)); cur = ''
+            parts.append(('hole', body[i + 1:j])); i = j + 1; continue
+        if c == '}':
+            if body.startswith('}}', i): cur += '}'; i += 2; continue
+            return None
+        cur += c; i += 1
+    if cur: parts.append(('lit', cur))
+    return parts
+
+def expand_format_macros(text, log, where):
+    """R16: format!/write! with `{}` holes become explicit concatenations over the formatting model (spec/fmt_model.rs)."""
+    n = 0
+    while True:
+        hit = None
+        for i in L.code_positions(text):
+            for mac in ('format!(', 'write!('):
+                if text.startswith(mac, i) and (i == 0 or not (text[i-1].isalnum() or text[i-1] == '_')):
+                    hit = (i, mac)          # keep the LAST occurrence: innermost / rightmost first
+        if hit is None: break
+        i, mac = hit
+        po = i + len(mac) - 1
+        pc = L.match_close(text, po)
+        args = _split_args(text[po + 1:pc])
+        target = None
+        if mac == 'write!(':
+            target, args = args[0], args[1:]
+        parts = _fmt_parts(args[0]) if args else None
+        holes = [p for p in (parts or []) if p[0] == 'hole']
+        if parts is None or any(h[1] != '' for h in holes) or len(holes) != len(args) - 1 or len(parts) > 9 or not parts:
+            # outside the model: neutralise the macro name so that the loop terminates; Verus will reject it (UNDECIDED)
+            text = text[:i] + 'vx_unsupported_' + text[i:]
+            continue
+        it = iter(args[1:])
+        rendered = ['vx_lit("%s")' % p[1] if p[0] == 'lit' else '(%s).vx_show()' % next(it) for p in parts]
+        expr = rendered[0] if len(rendered) == 1 else 'vx_concat%d(%s)' % (len(rendered), ', '.join(rendered))
+        if target is not None: expr = '%s.vx_write(%s)' % (target, expr)
+        text = text[:i] + expr + text[pc + 1:]
+        n += 1
+    text2 = re.sub(r'\.to_string\(\)', '.vx_show()', text)
+    if n or text2 != text: log.add('R16', where, '%d format!/write! macros, %d to_string() calls' % (n, text.count('.to_string()')), 'concatenation over the formatting model (vx_lit / vx_show / vx_concatN / vx_write)')
+    return text2
